@@ -212,5 +212,77 @@ def run_shard(args):
             if md:
                 model_bad.append({'stack': r['stack'], 'diffs': json.loads(json.dumps(md[:3], default=str))})
     stats['distinct_nontrivial'] = len(distinct)
+    stats['shared_dynamic'] = {}
+    for i in range(max(2, n // 4)):
+        kind, pr = run_shared_dynamic(seed * 104729 + i)
+        stats['shared_dynamic'][kind] = stats['shared_dynamic'].get(kind, 0) + 1
+        for p in pr:
+            problems.append({'stack': p.get('source'), **p})
     sample = next(({'stack': r['stack'], 'variants': r['variants']} for r in recs if len(r['variants']) >= 4), None)
     return stats, problems, model_bad, sample
+
+
+# ---------------------------------------------------------------- shared layer objects over different datasets
+
+def run_shared_dynamic(seed):
+    """one layer object (Filter, keep, GroupBy, CacheToRam, Transform) composed with two *different* sources that expose the
+    same field names: at each position it must behave as an independent copy (compared with fresh copies), in either order"""
+    from . import rel
+    rng = random.Random(seed)
+    world_seed = rng.randrange(10 ** 6)
+    problems = []
+    kinds = ['filter', 'keep', 'groupby', 'ram', 'transform']
+    kind = rng.choice(kinds)
+
+    def sources():
+        a = rel.gen_source(rng, 0, rng.sample(rel.UNIVERSE, 3), ['x'])
+        b_ = rel.gen_source(rng, 1, rng.sample(rel.UNIVERSE, 4), ['x'])
+        for s in (a, b_):
+            s['fields']['k1'] = {'args': ['i'], 'table': [[[i], rng.choice(rel.KEYS)] for i in rel.UNIVERSE + rel.FOREIGN]}
+            s['fields'].pop('k2', None)
+        return a, b_
+    a, b_ = sources()
+    if kind == 'filter':
+        p = {'k': 'filter', 'f': 'shpred', 'args': ['k1'], 'table': [[['u'], True], [['v'], False], [['w'], True]]}
+    elif kind == 'keep':
+        p = {'k': 'keep', 'ids': rng.sample(rel.UNIVERSE, 4)}
+    elif kind == 'groupby':
+        p = {'k': 'groupby', 'by': 'k1'}
+    elif kind == 'ram':
+        p = {'k': 'ram', 'names': None, 'size': None}
+    else:
+        p = {'k': 'transform', 'cls': 'ShT', 'fields': {'y': {'args': ['x']}}, 'params': {}, 'cargs': {}, 'defaults': {}, 'inherit': True}
+    from .pipeline import Builder
+    from .sym import SymWorld
+    from .codec import canon
+    world = SymWorld()
+    b = Builder(world)
+    shared = b.layer(p)
+    order = [a, b_] if rng.random() < 0.5 else [b_, a]
+    fields = ['x', 'k1', 'y', 'id']
+    q = rel.UNIVERSE + rel.FOREIGN + rel.KEYS
+    for src in order:
+        try:
+            with_shared = b.layer(src) >> shared
+            with_fresh = b.layer(src) >> b.layer(p)
+            o1 = rel.observe_rel(b, with_shared, fields, q)
+            o2 = rel.observe_rel(b, with_fresh, fields, q)
+            for key in ('ids', 'ids_err', 'dir', 'values'):
+                if canon(o1.get(key)) != canon(o2.get(key)):
+                    problems.append({'kind': 'reuse', 'layer': p, 'source': src,
+                                     'msg': f'a {kind} layer object shared between pipelines over different datasets: {key} differs from a fresh copy '
+                                            f'({canon(o1.get(key))[:120]} vs {canon(o2.get(key))[:120]})'})
+                    break
+            # hashes of ids as well
+            try:
+                # library-internal lambdas (Filter.keep, GroupBy) are fresh objects per layer: compared by code and closure
+                from .codec import hash_to_json
+                h1 = canon(hash_to_json(with_shared._compile('ids').get_hash()[0].value, world))
+                h2 = canon(hash_to_json(with_fresh._compile('ids').get_hash()[0].value, world))
+                if h1 != h2:
+                    problems.append({'kind': 'reuse', 'layer': p, 'source': src, 'msg': f'a shared {kind} layer: the node hash of ids differs from a fresh copy'})
+            except Exception:
+                pass
+        except Exception as e:
+            problems.append({'kind': 'reuse', 'layer': p, 'msg': 'raised ' + exc_name(e) + ': ' + str(e)[:150]})
+    return kind, problems
